@@ -79,7 +79,9 @@ def make_taint(W):
             return True   # constructors wrap the secret in an opaque object; reads of its secret fields are sources again
         return False
 
-    return Taint(W, [("config.seed()", src_seed), ("load_seed/decrypt", src_load), ("secret-key-bytes", src_key), ("env::var(ROUGHENOUGH_SEED)", src_env)], ("seed", "signing_key", "secret_key"), declass, scope=in_scope)
+    T_ = Taint(W, [("config.seed()", src_seed), ("load_seed/decrypt", src_load), ("secret-key-bytes", src_key), ("env::var(ROUGHENOUGH_SEED)", src_env)], ("seed", "signing_key", "secret_key"), declass, scope=in_scope)
+    T_.data_free_types = DATA_FREE_ERR
+    return T_
 
 
 def err_payloads(W, T, t, depth=0):
